@@ -378,6 +378,8 @@ def is_enum_pos(t):
 
 
 def check(run, fx, tier, floors=True):
+    import ignored
+    ignored.run_for(run, fx, 'C02', floors)
     if floors or fx.body("layout::new_layout_cache") is not None:
         c02_s(run, fx)
     recursion.run_rule(run, fx, "C01-a", lambda f: any(any(p.startswith(pre) for pre in ("gsub::", "gpos::", "glyph_position::", "layout::", "scripts::", "font::", "context::")) for p in f.local_paths),
